@@ -134,10 +134,11 @@ def run_check(pid, tier, replay=None):
             # a "no longer shown" report: nothing concrete to replay; re-run the whole check instead
             print('replay %s names proof obligations / correspondences, not an input: re-running the check' % replay)
             return run_check(pid, payload.get('tier', tier))
+        ok = None
         if hasattr(prop, 'replay'):
             ctx = Ctx(pid, tier, seed, False)
-            ok = prop.replay(ctx, payload)
-        else:
+            ok = prop.replay(ctx, payload)        # None = not handled by the property's own replay
+        if ok is None:
             # generic replay: regenerate the run's cases from the recorded seed and tier (generation is
             # deterministic), run them on the implementation only, and look for the recorded input
             fl = payload['failure']
